@@ -400,6 +400,93 @@ fn minimize(db: &mut Db, rt: &RefTable, c: &QCase, kind: &str, what: &str, prop:
     (cur, cur_kind, cur_what)
 }
 
+fn e_cols(e: &E, out: &mut BTreeSet<String>) {
+    match e {
+        E::Col(c) => {
+            out.insert(c.clone());
+        }
+        E::Int(_) | E::Float(_) | E::Str(_) => {}
+        E::Bin(_, a, b) => {
+            e_cols(a, out);
+            e_cols(b, out);
+        }
+        E::Not(a) | E::Neg(a) | E::IsNull(a) | E::IsNotNull(a) | E::Length(a) | E::Agg(_, a) => e_cols(a, out),
+        E::Like(a, _) | E::NotLike(a, _) | E::Regex(a, _) => e_cols(a, out),
+    }
+}
+
+/// What the physical layout contributes to a failure of query `q`: one piece, several pieces, or
+/// several pieces of which one holds a referenced column entirely NULL (that column is then
+/// missing / of type Null in that piece while it has values elsewhere).
+pub fn layout_trait(t: &LogicalTable, l: &Layout, q: &Q) -> String {
+    let pieces: Vec<(usize, usize)> = {
+        let mut v = vec![];
+        let mut from = 0;
+        for n in &l.batches {
+            if *n > 0 {
+                v.push((from, from + n));
+            }
+            from += n;
+        }
+        v
+    };
+    if pieces.len() <= 1 {
+        return "P1".into();
+    }
+    let mut cols = BTreeSet::new();
+    for (e, _) in &q.select {
+        e_cols(e, &mut cols);
+    }
+    if let Some(f) = &q.filter {
+        e_cols(f, &mut cols);
+    }
+    for (e, _) in &q.order {
+        e_cols(e, &mut cols);
+    }
+    let mut allnull = vec![];
+    for c in &cols {
+        let somewhere = t.rows.iter().any(|r| r.contains_key(c));
+        if somewhere && pieces.iter().any(|(a, b)| (*a..*b).all(|i| !t.rows[i].contains_key(c))) {
+            allnull.push(c.clone());
+        }
+    }
+    if allnull.is_empty() {
+        "Pn".into()
+    } else {
+        format!("Pn-allnull{{{}}}", allnull.join(","))
+    }
+}
+
+/// Signature of a violation of a grouped query: the failing oracle (which already names the
+/// aggregate or the nullable keys involved), whether the *reduced* query counts a nullable column,
+/// and the layout trait. A recorded finding thereby names its specific trigger; getting the same
+/// aggregate wrong in any other way (no COUNT over a nullable column in the reduced query, a single
+/// piece, no piece in which a referenced column is entirely NULL) has a different signature.
+fn refine_sig(prop: &str, kind: &str, c: &QCase, t: &LogicalTable, l: &Layout) -> String {
+    if c.mode != Mode::Multiset {
+        return format!("{}:{}", prop, kind);
+    }
+    fn counted(e: &E, out: &mut BTreeSet<String>) {
+        match e {
+            E::Agg(Agg::Count, a) => e_cols(a, out),
+            E::Agg(_, _) | E::Col(_) | E::Int(_) | E::Float(_) | E::Str(_) => {}
+            E::Bin(_, a, b) => {
+                counted(a, out);
+                counted(b, out);
+            }
+            E::Not(a) | E::Neg(a) | E::IsNull(a) | E::IsNotNull(a) | E::Length(a) => counted(a, out),
+            E::Like(a, _) | E::NotLike(a, _) | E::Regex(a, _) => counted(a, out),
+        }
+    }
+    let mut cn = BTreeSet::new();
+    for (e, _) in &c.q.select {
+        counted(e, &mut cn);
+    }
+    let cn: Vec<String> = cn.into_iter().filter(|col| t.rows.iter().any(|r| !r.contains_key(col))).collect();
+    let cn = if cn.is_empty() { String::new() } else { format!(":count-nullable{{{}}}", cn.join(",")) };
+    format!("{}:{}{}:{}", prop, kind, cn, layout_trait(t, l, &c.q)).replace(' ', "_")
+}
+
 pub struct QueryEngine {
     pub prop: &'static str,
     pub suite: fn(Tier) -> Suite,
@@ -476,7 +563,7 @@ impl Engine for QueryEngine {
                         eprintln!("[trace] {}/{} :: {} :: {}", t.name, l.name, kind, what);
                     }
                     out.violation(Violation {
-                        sig: format!("{}:{}", self.prop, kind),
+                        sig: refine_sig(self.prop, &kind, &mc, t, l),
                         what: format!("table {} layout {}: {}", t.name, l.name, what),
                         weight: mc.q.sql().len() as u64,
                         case: serde_json::to_value(&mc).unwrap(),
@@ -520,7 +607,7 @@ impl Engine for QueryEngine {
         let (_, bad) = check_query(&mut db, &t.ref_table(), &c, self.prop);
         db.destroy();
         bad.map(|(kind, what)| Violation {
-            sig: format!("{}:{}", self.prop, kind),
+            sig: refine_sig(self.prop, &kind, &c, t, l),
             what,
             weight: 1,
             case: case.clone(),
@@ -593,6 +680,9 @@ fn c05_table(n: usize) -> LogicalTable {
     let nfval = [None, Some(2.5), Some(-1.0), None, Some(2.5), Some(0.5), None, Some(-1.0), Some(9.0), Some(2.5)];
     let sval = ["pear", "apple", "fig", "pear", "apple", "kiwi", "fig", "zebra", "", "apple"];
     let nsval = [Some("m"), None, Some("a"), Some("m"), None, Some("z"), None, Some("a"), Some(""), Some("m")];
+    let mval = [70000i64, 0, 4294967295, 65536, 0, 70000, 4294967000, 1, 65535, 70000];
+    let wval = [1i64 << 62, -(1 << 62), 0, i64::MIN + 1, 1 << 62, 7, -5, i64::MAX - 30, 0, 3037000500];
+    let nwval = [Some(1i64 << 61), None, Some(-(1 << 61)), None, Some(0), Some(1 << 61), Some(i64::MIN + 40), None, Some(9), Some(-(1 << 61))];
     let k = |i: usize| i % 10;
     LogicalTable::new(
         "t",
@@ -604,6 +694,10 @@ fn c05_table(n: usize) -> LogicalTable {
             ("nf", (0..n).map(|i| nfval[k(i)].map(|x| rf(x - (i / 10) as f64)).unwrap_or(RVal::Null)).collect()),
             ("s", (0..n).map(|i| rs(&format!("{}{}", sval[k(i)], if i >= 10 { "x" } else { "" }))).collect()),
             ("ns", (0..n).map(|i| nsval[k(i)].map(rs).unwrap_or(RVal::Null)).collect()),
+            // keys stored as u32 / compressed sections, full-width i64, nullable full-width
+            ("m", (0..n).map(|i| ri(mval[k(i)] + (i / 10) as i64)).collect()),
+            ("w", (0..n).map(|i| ri(wval[k(i)] + (i / 10) as i64)).collect()),
+            ("nw", (0..n).map(|i| nwval[k(i)].map(|x| ri(x - (i / 10) as i64)).unwrap_or(RVal::Null)).collect()),
         ],
     )
 }
@@ -626,6 +720,9 @@ pub fn c05_suite(tier: Tier) -> Suite {
             col("ns"),
             bin(BinOp::Add, col("i"), col("ni")),
             col("absent"),
+            col("m"),
+            col("w"),
+            col("nw"),
         ];
         let mut keylists: Vec<Vec<(E, bool)>> = vec![];
         for k in &keys {
@@ -633,7 +730,7 @@ pub fn c05_suite(tier: Tier) -> Suite {
             keylists.push(vec![(k.clone(), true)]);
         }
         // covering set of two-key lists: every ordered pair of distinct base columns, direction patterns alternate
-        let base = [col("i"), col("ni"), col("f"), col("nf"), col("s"), col("ns")];
+        let base = [col("i"), col("ni"), col("f"), col("nf"), col("s"), col("ns"), col("m"), col("w"), col("nw")];
         let mut flip = 0;
         for a in 0..base.len() {
             for b in 0..base.len() {
@@ -866,6 +963,32 @@ pub fn c06_suite(tier: Tier) -> Suite {
             }
         }
     }
+    // depth 3 over a small leaf set: balanced (a . b) . (c . d) and left-deep ((a . b) . c) . d
+    {
+        let c3: Vec<E> = ["b", "w", "nb"].iter().map(|c| col(c)).collect();
+        let mut l3 = c3.clone();
+        l3.extend([2i64, -1, i64::MAX - 1].iter().map(|k| E::Int(*k)));
+        let d3: Vec<E> = vec![col("o"), col("nw"), E::Int(2), E::Int(-1)];
+        let ops3: Vec<BinOp> = if tier == Tier::Quick { vec![BinOp::Add, BinOp::Mul, BinOp::Mod] } else { ARITH.to_vec() };
+        for o1 in &ops3 {
+            for o2 in &ops3 {
+                for o3 in &ops3 {
+                    for a in &c3 {
+                        for b in &l3 {
+                            for c in &c3 {
+                                for d in &d3 {
+                                    exprs.push(bin(*o3, bin(*o1, a.clone(), b.clone()), bin(*o2, c.clone(), d.clone())));
+                                    if tier == Tier::Thorough {
+                                        exprs.push(bin(*o3, bin(*o2, bin(*o1, a.clone(), b.clone()), c.clone()), d.clone()));
+                                    }
+                                }
+                            }
+                        }
+                    }
+                }
+            }
+        }
+    }
     exprs.push(E::Neg(Box::new(col("w"))));
     exprs.push(E::Neg(Box::new(col("o"))));
     exprs.push(E::Neg(Box::new(col("nw"))));
@@ -953,6 +1076,37 @@ fn c04_table() -> LogicalTable {
     )
 }
 
+/// Second C04 table: grouping keys whose value *ranges* sit at the boundaries the planner looks at
+/// (bits(max), bits(max - min), offset subtraction, 16-bit array-vs-hash threshold of the packed key,
+/// 63-bit limit of the packed key). Every column has both extremes in different partitions of the
+/// multi-partition layouts, so that partitions pick different encodings for the same key.
+fn c04_range_table() -> LogicalTable {
+    let rep = |a: i64, b: i64, c: i64| -> Vec<RVal> { ints(&[a, b, a, c, b, c, a, b, c, a, b, c]) };
+    LogicalTable::new(
+        "r",
+        vec![
+            ("id", ints(&[0, 1, 2, 3, 4, 5, 6, 7, 8, 9, 10, 11])),
+            ("a8", rep(0, 255, 7)),                         // u8, 8 bits
+            ("b8", ints(&[255, 0, 0, 255, 3, 3, 0, 255, 3, 0, 255, 3])), // u8, other grouping than a8
+            ("o8", rep(1000, 1255, 1100)),                  // u8 + offset (bits(max) - bits(max-min) > 1)
+            ("c9", rep(0, 256, 9)),                         // 9 bits
+            ("d16", rep(0, 65535, 5)),                      // max = 2^16 - 1: array grouping
+            ("e17", rep(0, 65536, 5)),                      // max = 2^16: hash grouping
+            ("m1", rep(-1, 254, 0)),                        // negative minimum
+            ("g32", rep(0, 4294967295, 17)),                // 32 bits
+            ("h33", rep(0, 4294967296, 17)),                // 33 bits
+            ("w62", rep(0, 1 << 62, 3)),                    // 63 bits on its own
+            ("full", rep(i64::MIN + 1, i64::MAX - 1, 0)),   // max - min does not fit i64
+            (
+                "n8",
+                opt_ints(&[Some(0), None, Some(255), Some(0), None, Some(255), Some(7), Some(7), None, Some(0), Some(255), Some(7)]),
+            ), // nullable with min = 0
+            ("v", ints(&[10, 20, 30, 40, 50, 60, 70, 80, 90, 100, 110, 120])),
+            ("fv", floats(&[0.25, 1.5, -2.0, 3.75, 0.1, 0.2, 0.3, 10.0, -0.5, 2.5, 1e6, 1e-6])),
+        ],
+    )
+}
+
 fn c04_layouts() -> Vec<Layout> {
     let base = DbOpts {
         partition_combine_factor: 999,
@@ -974,8 +1128,8 @@ fn c04_layouts() -> Vec<Layout> {
 }
 
 pub fn c04_suite(tier: Tier) -> Suite {
-    let tables = vec![c04_table()];
-    let layouts = vec![c04_layouts()];
+    let tables = vec![c04_table(), c04_range_table()];
+    let layouts = vec![c04_layouts(), c04_layouts()];
     let nl = layouts[0].len();
     let mut cases = vec![];
     let keys: Vec<E> = vec![
@@ -1078,6 +1232,43 @@ pub fn c04_suite(tier: Tier) -> Suite {
         cases.push(QCase { table: 0, layout: li, q, mode: Mode::Multiset, nkeys: 0 });
         let q = Q::select("t", vec![col("k"), bin(BinOp::Div, agg(Agg::Sum, col("v")), agg(Agg::Count, col("nv")))]);
         cases.push(QCase { table: 0, layout: li, q, mode: Mode::Multiset, nkeys: 0 });
+    }
+    // range-boundary keys (table r): every single key, every ordered pair, triples whose packed width
+    // crosses 16 / 63 bits; two aggregate sets, with and without a filter, every layout
+    {
+        let rk = ["a8", "b8", "o8", "c9", "d16", "e17", "m1", "g32", "h33", "w62", "full", "n8"];
+        let mut kls: Vec<Vec<E>> = rk.iter().map(|k| vec![col(k)]).collect();
+        for a in rk.iter() {
+            for b in rk.iter() {
+                if a != b {
+                    kls.push(vec![col(a), col(b)]);
+                }
+            }
+        }
+        for t in [["a8", "b8", "c9"], ["a8", "b8", "n8"], ["g32", "h33", "a8"], ["g32", "a8", "d16"], ["w62", "a8", "b8"], ["o8", "m1", "a8"], ["e17", "d16", "g32"], ["n8", "m1", "full"]] {
+            kls.push(t.iter().map(|k| col(k)).collect());
+        }
+        let rsets: Vec<Vec<E>> = vec![vec![agg(Agg::Count, E::Int(1))], vec![agg(Agg::Sum, col("v")), agg(Agg::Min, col("v")), agg(Agg::Max, col("fv"))]];
+        let rfilters: Vec<Option<E>> = vec![None, Some(bin(BinOp::Gt, col("v"), E::Int(45)))];
+        let mut m = 0usize;
+        for kl in &kls {
+            for (ai, aset) in rsets.iter().enumerate() {
+                for (fi, f) in rfilters.iter().enumerate() {
+                    for li in 0..nl {
+                        m += 1;
+                        // quick: pairs and triples on every second (aggregate set, filter, layout) combination
+                        if tier == Tier::Quick && kl.len() >= 2 && (ai + fi + li + m / (2 * 2 * nl)) % 2 == 1 {
+                            continue;
+                        }
+                        let mut select = kl.clone();
+                        select.extend(aset.clone());
+                        let mut q = Q::select("r", select);
+                        q.filter = f.clone();
+                        cases.push(QCase { table: 1, layout: li, q, mode: Mode::Multiset, nkeys: 0 });
+                    }
+                }
+            }
+        }
     }
     Suite { tables, layouts, cases }
 }
